@@ -220,13 +220,14 @@ theorem targets_agree (cfg : Cfg) (user : Option Bytes) (ops : List Op) :
 
 example : (exportFile currentCfg .unlimited [.putc 65, .printf [66], .flush, .direct 4 [67]]).sink = some [65, 66, 67] := by decide
 
-/-! ## fault injection findings of the write layer (witnesses replayed on the C code by corpus/C16) -/
+/-! ## observations under injected failures (outside the property: C16 does not quantify over allocation failure) -/
 
-/-- F18: when `realloc` fails during the MEM -> ALLOC switch the buffer is left with capacity 0 and
-offset 2; the next `vbi_export_putc` runs into `assert (offset <= capacity)` (process abort) instead
-of the export returning -1.  Input: 4-byte caller buffer, allocation limit 3. -/
+/-- F26 (observation, NOT a violation of C16): when `realloc` fails during the MEM -> ALLOC switch the
+buffer is left with capacity 0 and offset 2; the next `vbi_export_putc` runs into
+`assert (offset <= capacity)` (process abort) instead of the export returning -1.
+Input: 4-byte caller buffer, allocation limit 3 (replayed by hand: corpus/C16/not-run/F26-oom-assert.ops). -/
 theorem oom_assert_counterexample :
-    (exportMem ⟨false, false⟩ ⟨some 3, some 1000⟩ (some [0xAA, 0xAA, 0xAA, 0xAA])
+    (exportMem { wideClip := false, nullGuard := false } ⟨some 3, some 1000⟩ (some [0xAA, 0xAA, 0xAA, 0xAA])
       [.putc 65, .putc 66, .write [67, 68, 69, 70, 71], .putc 72]).st.fault
       = some (.assertFail "export.c:975 offset <= capacity") := by decide
 
@@ -241,20 +242,62 @@ theorem no_fault_without_injected_failures (cfg : Cfg) (t : Target) (buf : Bytes
 
 example : (run currentCfg .unlimited (init .mem [1, 2] false) [.printf [65, 66, 67]]).target = .alloc := by decide
 
-/-- F12: `vbi_export_mem (e, NULL, 0, pg)`, the documented size query, calls `memcpy` with a NULL
-pointer (undefined behaviour) unless the guard of fixes/F12 is present. -/
+/-- F12 (repaired in /repo, b4ce916): before the repair `vbi_export_mem (e, NULL, 0, pg)`, the documented
+size query, called `memcpy` with a NULL pointer (undefined behaviour). -/
 theorem mem_null_query_counterexample :
-    (exportMem ⟨false, false⟩ .unlimited none [.write [65, 66, 67]]).st.ub = true ∧
-    (exportMem ⟨false, true⟩ .unlimited none [.write [65, 66, 67]]).st.ub = false := by decide
+    (exportMem { wideClip := false, nullGuard := false } .unlimited none [.write [65, 66, 67]]).st.ub = true := by decide
+
+/-- With the F12 repair no call of `memcpy` gets a NULL pointer, for every exporter, buffer (also NULL),
+allocation limit and sink limit; `no_null_memcpy` states it for the tree as it is now
+(`Generated/ExportCfg.lean`, probed on the compiled code). -/
+theorem no_null_memcpy_repaired (cfg : Cfg) (hg : cfg.nullGuard = true) (env : Env) (user : Option Bytes) (ops : List Op) :
+    (exportMem cfg env user ops).st.ub = false ∧ (exportAlloc cfg env ops).st.ub = false ∧
+    (exportStdio cfg env ops).st.ub = false ∧ (exportFile cfg env ops).st.ub = false := by
+  have key : ∀ t buf un, (run cfg env (init t buf un) ops).ub = false := fun t buf un => by
+    rw [run_ub hg]; rfl
+  refine ⟨?_, ?_, ?_, ?_⟩
+  · unfold exportMem
+    simp only
+    split
+    · split
+      · simp [key, hg]
+      · exact key _ _ _
+    · exact key _ _ _
+  · unfold exportAlloc
+    simp only
+    split
+    · split
+      · split
+        · exact key _ _ _
+        · split <;> exact key _ _ _
+      · exact key _ _ _
+    · exact key _ _ _
+  · unfold exportStdio
+    simp only
+    split
+    · rw [flush_ub]; exact key _ _ _
+    · exact key _ _ _
+  · unfold exportFile
+    simp only
+    split
+    · rw [flush_ub]; exact key _ _ _
+    · exact key _ _ _
+
+theorem no_null_memcpy (env : Env) (user : Option Bytes) (ops : List Op) :
+    (exportMem currentCfg env user ops).st.ub = false ∧ (exportAlloc currentCfg env ops).st.ub = false ∧
+    (exportStdio currentCfg env ops).st.ub = false ∧ (exportFile currentCfg env ops).st.ub = false :=
+  no_null_memcpy_repaired currentCfg (by decide) env user ops
+
+example : (exportMem currentCfg .unlimited none [.write [65, 66, 67]]).ret = some 3 := by decide
 
 /-! ## vbi_print_page_region, table mode -/
 
 /-- The function never reports more bytes than the stated buffer size, and the '\n' between rows is never
 stored outside the buffer: the only possible out-of-bounds access is a read of `pg->text[]` for a page
-whose `rows * columns` exceeds the array (for every page, region, size and converter). -/
-theorem print_region_bounded (conv : Nat → Option Bytes) (pg : Page) (size column row width height : Int) :
-    (∀ out, printRegion conv pg size column row width height = .ok (some out) → (out.length : Int) ≤ size) ∧
-    (∀ f, printRegion conv pg size column row width height = .error f →
+whose `rows * columns` exceeds the array (for every page, region, size, converter and repair state). -/
+theorem print_region_bounded (cfg : Cfg) (conv : Nat → Option Bytes) (pg : Page) (size column row width height : Int) :
+    (∀ out, printRegion cfg conv pg size column row width height = .ok (some out) → (out.length : Int) ≤ size) ∧
+    (∀ f, printRegion cfg conv pg size column row width height = .error f →
        regionCells pg column.toNat row.toNat width.toNat height.toNat = .error f) := by
   unfold printRegion
   simp only
@@ -284,34 +327,48 @@ theorem print_region_bounded (conv : Nat → Option Bytes) (pg : Page) (size col
 
 /-- Exactness: when the table-mode text of the region (each character converted, not representable
 ones replaced by a space, rows joined by '\n') fits into the buffer, the function stores exactly
-that text and returns its length. -/
-theorem print_region_exact (conv : Nat → Option Bytes) (pg : Page) (size col row w h : Nat)
-    (cells : List (List (Nat × Cell))) (e : Bytes)
+that text and returns its length (`AtFits`: side condition on the '@' heuristic, see Spec). -/
+theorem print_region_exact (cfg : Cfg) (conv : Nat → Option Bytes) (pg : Page) (size col row w h : Nat)
+    (cells : List (List (Nat × Cell))) (e : Bytes) (hA : AtFits cfg conv)
     (hcol : col + w ≤ pg.columns) (hrow : row + h ≤ pg.rows)
     (hc : regionCells pg col row w h = .ok cells)
-    (ht : tableText conv (cells.map (·.map (·.2))) = some e) (hfit : e.length ≤ size) :
-    printRegion conv pg size col row w h = .ok (some e) := by
+    (ht : tableText cfg conv (cells.map (·.map (·.2))) = some e) (hfit : e.length ≤ size) :
+    printRegion cfg conv pg size col row w h = .ok (some e) := by
   unfold printRegion
   simp only
   have hcond : ¬ ((size : Int) < 0 ∨ (col : Int) < 0 ∨ (col : Int) + w - 1 ≥ pg.columns ∨ (row : Int) < 0 ∨ (row : Int) + h - 1 ≥ pg.rows) := by
     omega
   simp only [hcond, ite_false, Int.toNat_natCast, hc]
-  have := printRows_exact (conv := conv) (size := size) (cells.map (·.map (·.2))) [] e ht (by simpa using hfit)
+  have := printRows_exact (cfg := cfg) (conv := conv) (size := size) hA (cells.map (·.map (·.2))) [] e ht (by simpa using hfit)
   simpa using this
 
-/-- F17a: with a buffer that is too small the function must fail (documented), but a multi-byte
-character that does not fit is silently replaced by a space: "A" + U+20AC in a UTF-8 like encoding
-with 3 bytes of room gives the 2 bytes "A " (the full statement `print_region_exact_small_buffer_stmt`
-is false). -/
-theorem print_region_small_buffer_counterexample : ¬ print_region_exact_small_buffer_stmt := by
+/-- F27a: without the repair a buffer that is too small does not make the function fail (as documented):
+a multi-byte character that does not fit is silently replaced by a space: "A" + U+20AC in a UTF-8 like
+encoding with 3 bytes of room gives the 2 bytes "A " (`print_region_exact_small_buffer_stmt` is false). -/
+theorem print_region_small_buffer_counterexample :
+    ¬ print_region_exact_small_buffer_stmt { wideClip := true, nullGuard := true, printE2big := false } := by
   intro h
   have := h (fun u => if u = 0x20AC then some [0xE2, 0x82, 0xAC] else some [u]) 3
-    [[{ unicode := 0x41, size := 0 }, { unicode := 0x20AC, size := 0 }]] [0x41, 0x20] [0x41, 0xE2, 0x82, 0xAC]
-    rfl rfl
+    [[{ unicode := 0x41, size := 0 }, { unicode := 0x20AC, size := 0 }]] [0x41, 0x20] rfl
   exact absurd this (by decide)
 
-example : printRows (fun u => some [u]) 10 [[{ unicode := 0x41, size := 0 }], [{ unicode := 0x42, size := 6 }]] [] = .ok (some [0x41, 0x0A, 0x20]) := by
+/-- With the F27a repair (`E2BIG` is an error) the statement holds at full strength: whatever the
+function returns as success is exactly the table text of the region, for every converter, size and
+page; hence a buffer smaller than the text makes it fail. -/
+theorem print_region_exact_repaired (cfg : Cfg) (hE : cfg.printE2big = true) : print_region_exact_small_buffer_stmt cfg := by
+  intro conv size rows out h
+  obtain ⟨e, he, ho⟩ := printRows_sound hE rows [] out h
+  rw [he, ho]; simp
+
+example : printRows currentCfg (fun u => some [u]) 10 [[{ unicode := 0x41, size := 0 }], [{ unicode := 0x42, size := 6 }]] [] = .ok (some [0x41, 0x0A, 0x20]) := by
   rfl
+
+/-- F27b: without the repair a character whose encoding merely starts with byte 0x40 (U+0140 in
+UCS-2LE) is printed as a space; with the repair it is kept. -/
+theorem print_at_sign_counterexample :
+    printUnicode { wideClip := true, nullGuard := true } (fun u => some [u % 256, u / 256]) 0x140 10 = some [0x20, 0] ∧
+    printUnicode { wideClip := true, nullGuard := true, atOneByte := true } (fun u => some [u % 256, u / 256]) 0x140 10 = some [0x40, 1] := by
+  decide
 
 /-! ## region rendering -/
 
@@ -347,11 +404,18 @@ theorem render_in_rectangle_repaired (cfg : Cfg) (hfix : cfg.wideClip = true) : 
   intro drcs S ct reveal flashOn w cells hct hd hrows run hm a ha
   exact vtRuns_inRect (h := cells.length) hct hd cells 0 (by omega) hrows (Or.inl hfix) run hm a ha
 
-/-- F14: on the code as it is (no clipping) the full statement is false: a DOUBLE_WIDTH character in the
+/-- `render_in_rectangle` for the tree as it is now (F14 repaired in /repo, 77b0065; the flag in
+`Generated/ExportCfg.lean` is measured on the compiled code on every run): every byte written by
+`vbi_draw_vt_page_region` lies inside the region rectangle, for every page, region, stride (multiple of
+the pixel size), supported format, reveal / flash setting.  If the repair is ever lost this proof fails. -/
+theorem render_in_rectangle : render_in_rectangle_stmt currentCfg :=
+  render_in_rectangle_repaired currentCfg (by decide)
+
+/-- F14: on the code as it was before the repair (no clipping) the full statement is false: a DOUBLE_WIDTH character in the
 last (second) column of a 2 x 1 region, PAL8, row stride 24 = the rectangle width: `draw_char` writes
 bytes 12..35 of each line, 12 past the rectangle, and on the last line past the canvas (index 240 of a
 240-byte canvas). -/
-theorem render_in_rectangle_counterexample : ¬ render_in_rectangle_stmt ⟨false, false⟩ := by
+theorem render_in_rectangle_counterexample : ¬ render_in_rectangle_stmt { wideClip := false, nullGuard := false } := by
   intro h
   have hin := h [] 24 1 true true 2
     [[(0, { unicode := 0x41, size := 0 }), (1, { unicode := 0x42, size := 1 })]] (by decide) ⟨24, rfl⟩ (by decide)
@@ -373,7 +437,7 @@ theorem render_cc_in_rectangle (pg : Page) (ct S col row w h : Nat) (cells : Lis
   intro run hm a ha
   exact ccRuns_inRect (w := w) (h := h) hct hd cells 0 (by omega) hrows run hm a ha
 
-example : (vtRuns ⟨true, true⟩ [] 24 1 true true 0
+example : (vtRuns { wideClip := true, nullGuard := true } [] 24 1 true true 0
     [[(0, { unicode := 0x41, size := 0 }), (1, { unicode := 0x42, size := 1 })]]).length = 20 := by decide
 
 /-- The part of `region_equals_full` that is proved: what a character draws does not depend on where the
